@@ -7,6 +7,7 @@ NAMES = ['', 'a', 'A', 'b', 'B', 'ab', 'Ab', 'aB', 'a[0]', 'a_0_', '&x', '&X', '
          'inst', 'INST', 'n1', 'N1']
 IDENTS = ['a', 'A', 'b', 'ab', 'AB', 'Ab', '&x', '&X', 'x_1', 'X_1', '1a', 'a-b', '&', 'a b', 'c', 'C', 'a\n', 'B_2\n',
           'a\u00ba1', 'a\u0663', '&\u0663']   # word characters outside ASCII (no case mapping): never legal in an identifier
+LONG_IDENTS = ['b' * 255, 'b' * 256, '&' + 'b' * 255, '&' + 'b' * 256, 'B' * 255]
 USER_KEYS = ['k', 'K', 'prop', 'EDIF.rename']
 RELS = ['libs', 'defs', 'ports', 'cables', 'children', 'pins', 'wires']
 
@@ -71,6 +72,9 @@ class Gen:
 
     def key_val(self):
         x = self.r.random()
+        if x < 0.02:
+            # the length limits of an identifier: 255 characters, 256 with the & prefix; one more is refused
+            return 'EDIF.identifier', 's:' + tok_of_s(self.r.choice(LONG_IDENTS))
         if x < 0.5:
             return 'EDIF.identifier', 's:' + tok_of_s(self.r.choice(IDENTS))
         if x < 0.6:
@@ -176,6 +180,11 @@ class Gen:
             self.pending = ch[1:]
             self._touch(ch[0])
             return ch[0]
+        if self.weights.get('dset', 0) and self.weights.get('ddel', 0) and self.r.random() < (0.03 if self.naming else 0.004):
+            ch = self.chain_dup_names_no_policy()
+            self.pending = ch[1:]
+            self._touch(ch[0])
+            return ch[0]
         kinds = list(self.weights)
         for _ in range(30):
             k = self.r.choices(kinds, [self.weights[x] for x in kinds])[0]
@@ -276,6 +285,30 @@ class Gen:
         if self.r.random() < 0.6:
             ops.append(['policy', '0'])
         return ops
+
+    def chain_dup_names_no_policy(self):
+        """a root scope whose naming policy was assigned and then deleted keeps no name bookkeeping at all: two children
+        with the same name (or, for EDIF, identifiers differing in case only) are accepted; assigning a policy to that
+        scope must then be refused (no_name_conflicts) until one of them is renamed"""
+        T = tok_of_s
+        rel, pk = self.r.choice([('ports', 'definition'), ('cables', 'definition'), ('children', 'definition'),
+                                 ('defs', 'library'), ('libs', 'netlist')])
+        d = len(self.w.objs)
+        ns = T('.NS')
+        pol = lambda: 's:' + T(self.r.choice(['DEFAULT', 'EDIF']))  # noqa
+        by_ident = self.r.random() < 0.4
+        if by_ident:
+            ident = T('EDIF.identifier')
+            a, b = self.r.choice([('Ab', 'aB'), ('x1', 'X1'), ('q', 'q')])
+            mk = [['create', rel, str(d), T('n1'), '1', ident, 's:' + T(a), '0', '~'],
+                  ['create', rel, str(d), T('n2'), '1', ident, 's:' + T(b), '0', '~']]
+            target, fix = 's:' + T('EDIF'), ['dset', str(d + 2), ident, 's:' + T('other')]
+        else:
+            nm = self.r.choice(NAMES)
+            mk = [['create', rel, str(d), T(nm), '0', '0', '~'], ['create', rel, str(d), T(nm), '0', '0', '~']]
+            target, fix = pol(), ['setname', str(d + 2), T('other')]
+        return [['new', pk, T('scope'), '0'], ['dset', str(d), ns, pol()], [self.r.choice(['ddel', 'dpop']), str(d), ns]] + mk + \
+               [['dset', str(d), ns, target], fix, ['dset', str(d), ns, target]]
 
     def chain_stale_proxy(self):
         """several steps on one outer pin through a proxy object the caller keeps: connect it to a wire through
